@@ -385,7 +385,7 @@ PhraseKey(m0, p, slen) ==
 \* the legacy bcrypt variants have documented sign-extension quirks for 8-bit bytes: no claim there
 QuirkFree(m, p) == ~(m \in {"bcrypt_x", "bcrypt_a"} /\ \E i \in 1..Len(p) : p[i] >= 128)
 \* the digest part of a hash of method m
-DigestTail(m, h, plen, slen) == LET n == DigestLen(m, plen, slen) IN SubSeq(h, Len(h) - n + 1, Len(h))
+DigestTail(m, h, plen, slen) == LET n == DigestLen(m, plen, slen) IN IF Len(h) < n THEN h ELSE SubSeq(h, Len(h) - n + 1, Len(h))
 
 \* separator between canon and digest ("$" for the MCF methods, "$" doubled for NT, nothing for DES/bcrypt)
 SepOf(m) == CASE m \in {"descrypt","bigcrypt","bsdicrypt","bcrypt","bcrypt_a","bcrypt_x","bcrypt_y"} -> <<>>
